@@ -123,17 +123,19 @@ def _aliased(got, objs):
     return False
 
 
-def _ev(node, out, flags):
-    """-> (real object, reference operand, kind string, is_leaf, systems of the quantity leaves below)."""
+def _ev(node, out, flags, prefix=""):
+    """-> (real object, reference operand, kind string, is_leaf).  A leaf may carry a live object ("_obj",
+    history cases: the operand is an object with a past); its reference value is then read from the object's
+    current stored numbers and units."""
     if "op" not in node:
-        obj = _build(node)
+        obj = node["_obj"] if "_obj" in node else _build(node)
         return obj, _leaf_ref(node, obj), node["k"], True
     op = node["op"]
-    sub = [_ev(x, out, flags) for x in node["args"]]
+    sub = [_ev(x, out, flags, prefix) for x in node["args"]]
     objs = [s[0] for s in sub]
     refs = [s[1] for s in sub]
     kinds = [s[2] for s in sub]
-    site = "%s:%s" % (op, ",".join(kinds))
+    site = "%s%s:%s" % (prefix, op, ",".join(kinds))
     before = [_snap(o) for o in objs]
 
     # ---- what the statement specifies
@@ -171,6 +173,8 @@ def _ev(node, out, flags):
     except Exception as e:      # noqa: BLE001 - any exception is "raised"
         exc = e
     flags.append("op")
+    if "_rec" in node:
+        node["_rec"].append((exc, got))
 
     after = [_snap(o) for o in objs]
     if after != before:
@@ -259,6 +263,8 @@ def _leaves(node):
 
 
 def _evaluate(case):
+    if "hist" in case:
+        return _eval_history(case)
     out, flags = [], []
     try:
         try:
@@ -274,6 +280,223 @@ def _evaluate(case):
 def check_case(case):
     """One case; returns [(key, what)]."""
     return _evaluate(case)[0]
+
+
+# ---- histories on the SAME operand objects (E2) --------------------------------------------------------
+#
+# A history case is {"sub": "history", "hist": {"X": leaf, "P": leaf, "Z": system, "op": name, "steps": [...]}}.
+# X (the subject) and P (the partner) are built once; the steps are applied in order to these two objects:
+#   L  X op P        R  P op X        U  -X        D  X * Units("")-quantity 3 built on the spot (and 3/X)
+#   set_at   X.set_at(i, UnitValue in system Z)          inplace    X.value[i] = x        (arrays)
+#   setter   X.value = [...] / X.value = x               set_value  X.set_value([... one more element])
+#   relabel  X.units = Units(other system, same dimension)
+#   conv     X.convert(UnitsSystem)                      convd      X.convert({"time": t})  (documented defaults)
+# After every operator call the result is compared (1) with exact arithmetic on the operands' CURRENT stored
+# numbers and units, read back from the objects just before the call (the property as stated), and (2) with the
+# same call on fresh objects built from those current numbers and units.  At the end, constructions that rely on
+# the module's defaults must give what they gave when the module was imported.
+
+RK = [2.37, -5.6, 0.43, 12.85, 31.3, -0.77, 4.61, -9.23]      # SI ratios new-value / partner (no near-integers)
+OPSTEPS = ("L", "R", "U")
+UA_STEPS = ("L", "R", "U", "D", "set_at", "inplace", "setter", "set_value", "relabel", "conv", "convd")
+UV_STEPS = ("L", "R", "U", "D", "setter", "relabel", "conv", "convd")
+
+
+def _probe():
+    """Outcomes of constructions that depend on module-level defaults only."""
+    from strengths.units import parse_units, unitssystem_from_dict
+    res = []
+    for f in (lambda: uq.sys_of(parse_units("")), lambda: uq.sys_of(parse_units("m")),
+              lambda: (lambda u: (u.space, u.time, u.quantity))(unitssystem_from_dict({"space": "m"})),
+              lambda: (lambda u: (u.space, u.time, u.quantity))(unitssystem_from_dict({"time": "h"})),
+              lambda: _snap(UnitValue(3.0))):
+        try:
+            res.append(repr(f()))
+        except Exception as e:      # noqa: BLE001
+            res.append("raises " + type(e).__name__)
+    return res
+
+
+_BASE_PROBE = _probe()
+
+
+def _leaf_of(obj):
+    """JSON leaf describing the current state of an operand object."""
+    if isinstance(obj, UnitValue):
+        return {"k": "uv", "v": obj.value, "sys": list(uq.sys_of(obj.units)), "dim": list(uq.dim_of(obj.units))}
+    if isinstance(obj, UnitArray):
+        return {"k": "ua", "v": [float(x) for x in obj.value], "sys": list(uq.sys_of(obj.units)),
+                "dim": list(uq.dim_of(obj.units))}
+    return {"k": "int" if isinstance(obj, int) else "float", "v": obj}
+
+
+def _outcome(exc, got):
+    """Comparable summary of what an operator call did."""
+    if exc is not None:
+        return ("raises",)
+    if isinstance(got, (bool, np.bool_)):
+        return ("bool", bool(got))
+    if isinstance(got, (UnitValue, UnitArray)):
+        try:
+            return (type(got).__name__, uq.dim_of(got.units), _si_vals(got))
+        except (OverflowError, ValueError):
+            return (type(got).__name__, uq.dim_of(got.units), "not finite")
+    return ("other", repr(got))
+
+
+def _same_outcome(a, b, scales):
+    if a[:2] != b[:2] or len(a) != len(b):
+        return False
+    if len(a) == 3:
+        if isinstance(a[2], str) or isinstance(b[2], str) or len(a[2]) != len(b[2]):
+            return a[2] == b[2]
+        for i, (x, y) in enumerate(zip(a[2], b[2])):
+            s = max(abs(x), abs(y)) + (scales[i if len(scales) > 1 else 0] if scales else 0)
+            if x != y and not arith.close(x, y, s):
+                return False
+    return True
+
+
+def _hist_op(op, objs, out, flags, prefix):
+    """One operator call on live objects: oracle on their current state + the same call on fresh copies."""
+    leaves = [_leaf_of(o) for o in objs]
+    node = {"op": op, "args": [dict(lf, _obj=o) for lf, o in zip(leaves, objs)], "_rec": []}
+    n0 = len(out)
+    try:
+        _ev(node, out, flags, prefix)
+    except _Stop:
+        pass
+    if len(out) > n0 or not node["_rec"]:
+        raise _Stop()
+    live = _outcome(*node["_rec"][0])
+    fresh_objs = [_build(lf) for lf in leaves]
+    try:
+        fexc, fgot = None, (OPF[op](*fresh_objs))
+    except Exception as e:      # noqa: BLE001
+        fexc, fgot = e, None
+    flags.append("op")
+    fresh = _outcome(fexc, fgot)
+    scales = []
+    if len(objs) == 2 and op in ("add", "sub", "mod"):
+        try:
+            r = arith.resolve(op, _leaf_ref(leaves[0], fresh_objs[0]), _leaf_ref(leaves[1], fresh_objs[1]))
+            if isinstance(r, arith.Resolved):
+                scales = [x + y for x, y in zip(r.sa, r.sb)]
+        except ValueError:
+            pass
+    if not _same_outcome(live, fresh, scales):
+        kinds = ",".join(lf["k"] for lf in leaves)
+        out.append(("C05:%s%s:%s:differs-from-fresh-operands" % (prefix, op, kinds),
+                    "on operands with a past the call gave %s, on fresh operands with the same stored numbers "
+                    "and units %s" % (_show(live), _show(fresh))))
+        raise _Stop()
+
+
+def _show(o):
+    if len(o) == 3 and not isinstance(o[2], str):
+        return "%s dim %s SI %s" % (o[0], o[1], [arith.fmt(x) for x in o[2]])
+    return repr(o)
+
+
+def _other(cur, a, b):
+    return tuple(b) if tuple(cur) == tuple(a) else tuple(a)
+
+
+def _eval_history(case):
+    out, flags = [], []
+    h = case["hist"]
+    try:
+        X, P = _build(h["X"]), _build(h["P"])
+        op, Z, sys0 = h["op"], tuple(h["Z"]), tuple(h["X"]["sys"])
+        dim = tuple(h["X"]["dim"])
+        kx = h["X"]["k"]
+        psys = tuple(h["P"]["sys"]) if h["P"]["k"] in QK else Z
+        for k, sym in enumerate(h["steps"]):
+            pre = "history:%s:" % sym
+            cur = uq.sys_of(X.units)
+            base = (_si_vals(P)[0] if h["P"]["k"] in QK else F(P) * _unit_of(X))
+            n = len(X) if kx == "ua" else 1
+
+            def stored(i, sys3):
+                return si.to_float(base * F(RK[(2 * k + i) % len(RK)]) / _scale(tuple(sys3), dim))
+            if sym == "L":
+                _hist_op(op, [X, P], out, flags, pre)
+            elif sym == "R":
+                _hist_op(op, [P, X], out, flags, pre)
+            elif sym == "U":
+                _hist_op("neg", [X], out, flags, pre)
+            elif sym == "D":
+                d = UnitValue(3.0, "")
+                _hist_op("mul", [X, d], out, flags, pre)
+                _hist_op("div", [UnitValue(3.0, ""), X], out, flags, pre)
+            elif sym == "set_at":
+                X.set_at(k % n, UnitValue(stored(0, Z), _units(Z, dim)))
+                flags.append("mod")
+            elif sym == "inplace":
+                X.value[k % n] = stored(1, cur)
+                flags.append("mod")
+            elif sym == "setter":
+                X.value = [stored(i, cur) for i in range(n)] if kx == "ua" else stored(0, cur)
+                flags.append("mod")
+            elif sym == "set_value":
+                X.set_value([stored(i, cur) for i in range(n + 1)])
+                flags.append("mod")
+            elif sym == "relabel":
+                X.units = _units(_other(cur, sys0, Z), dim)
+                flags.append("mod")
+            elif sym in ("conv", "convd"):
+                before = _snap(X)
+                if sym == "conv":
+                    want = psys
+                    y = X.convert(uq.mk_sys(psys))
+                else:
+                    want = (si.DEFAULT[0], psys[1], si.DEFAULT[2])
+                    y = X.convert({"time": psys[1]})
+                flags.append("mod")
+                site = "C05:history:%s:%s" % (sym, kx)
+                if _snap(X) != before:
+                    out.append((site + ":operand-mutated", "%r became %r" % (before, _snap(X))))
+                    break
+                vals = _check_quantity("history:%s:%s" % (sym, kx), y, dim, kx == "ua", n, out)
+                if vals is None:
+                    break
+                ysys = uq.sys_of(y.units)
+                if any(dim[i] != 0 and ysys[i] != want[i] for i in range(3)):
+                    out.append((site + ":wrong-target-unit", "converted into %s, requested %s (documented defaults "
+                                "for the keys left out)" % (ysys, want)))
+                    break
+                for g, e in zip(vals, _si_vals(X)):
+                    if not arith.close(g, e, abs(e)):
+                        out.append((site + ":value", "SI value %s became %s" % (arith.fmt(e), arith.fmt(g))))
+                        raise _Stop()
+            else:
+                raise ValueError(sym)
+        probe = _probe()
+        if probe != _BASE_PROBE:
+            out.append(("C05:history:module-state:defaults-changed",
+                        "constructions that rely on the module defaults gave %s when the module was imported and give "
+                        "%s after this history" % (_BASE_PROBE, probe)))
+    except _Stop:
+        pass
+    except Exception as e:      # noqa: BLE001
+        out.append(("C05:history:unexpected-exception", "%s: %s (outside an operator call)" % (type(e).__name__, e)))
+    return out, flags
+
+
+def history_case(kx, nx, kp, op, steps, triple, dim):
+    """Concrete operands: P = 0.6 (x1, x1.75 per element), X elements at SI ratios RK[6], RK[7] to P."""
+    sx, sp_, z = triple
+    dim = tuple(dim)
+    if kp == "float":
+        P = _n("float", 0.6)
+        base = F(0.6) * _scale(tuple(sx), dim)
+    else:
+        npart = 1 if kp == "uv" else (nx if kx == "ua" else 2)
+        P = _q("uv" if kp == "uv" else "ua", [0.6 * RM[j] for j in range(npart)], sp_, dim)
+        base = F(0.6) * _scale(tuple(sp_), dim)
+    xv = [si.to_float(base * F(RK[6 + i]) / _scale(tuple(sx), dim)) for i in range(nx)]
+    X = _q("uv" if kx == "uv" else "ua", xv, sx, dim)
+    return {"sub": "history", "hist": {"X": X, "P": P, "Z": list(z), "op": op, "steps": list(steps)}}
 
 
 # ---- operand construction --------------------------------------------------------------------------
@@ -536,6 +759,33 @@ def _spaces(tier):
     sp.append(Space("trees: depth 2, (a.b).c and c.(a.b): {+ - * / %%}^2 x kinds {scalar,array,float}^3 (not two "
                     "numbers inside) ; {+ - * / %%} then a comparison on scalars ; then unary -/abs ; then ** "
                     "{2,-1,1/2} ; operands in %d^3 unit systems x 2 dimension assignments" % len(T3), blocks))
+    # (e) histories on the same operand objects
+    HA, HB, HC = ("mm", "ds", "mmol"), ("cm", "s", "cmol"), ("dm", "cs", "dmol")
+    TRIPLES = [(HA, HB, HC), (si.DEFAULT, si.MIXED[0], si.MIXED[3])]
+    HDIMS = [(1, -1, 1)]
+    if thorough:
+        TRIPLES += [(HB, si.DEFAULT, HA), (si.MIXED[3], HA, si.DEFAULT), (HA, HA, HB),
+                    (si.MIXED[0], si.MIXED[0], si.DEFAULT)]
+        HDIMS += [(0, 1, 0)]
+
+    def seqs(alpha):
+        return ([(l,) for l in OPSTEPS] + [(a, l) for a in alpha for l in OPSTEPS]
+                + [(a, b, l) for a in alpha for b in alpha for l in OPSTEPS])
+    SEQ_UA, SEQ_UV = seqs(UA_STEPS), seqs(UV_STEPS)
+    K3P = ["uv", "ua", "float"]
+    sp.append(Space("history: the SAME operand objects through <= 3 steps ending in an operator call; steps: X op P, "
+                    "P op X, -X, X*3 and 3/X with a dimensionless quantity built on the spot, set_at, in-place "
+                    "write into .value, .value setter, set_value (one more element), .units relabel, "
+                    "convert(UnitsSystem), convert({'time': t}); subject: array of length 2 / 1 x partner "
+                    "{scalar, array, float} x {+ - * / %%} (%d step sequences), scalar x the same (%d sequences), "
+                    "scalar x {scalar, float} x 6 comparisons; x %d system triples x %d dimension(s)"
+                    % (len(SEQ_UA), len(SEQ_UV), len(TRIPLES), len(HDIMS)),
+                    [Block([[2, 1], K3P, ARITH5, SEQ_UA, TRIPLES, HDIMS],
+                           lambda nx, kp, op, st, tr, dm: history_case("ua", nx, kp, op, st, tr, dm)),
+                     Block([K3P, ARITH5, SEQ_UV, TRIPLES, HDIMS],
+                           lambda kp, op, st, tr, dm: history_case("uv", 1, kp, op, st, tr, dm)),
+                     Block([["uv", "float"], CMP6, SEQ_UV, TRIPLES, HDIMS],
+                           lambda kp, op, st, tr, dm: history_case("uv", 1, kp, op, st, tr, dm))]))
     return sp
 
 
@@ -618,6 +868,23 @@ def _work(job):
         case = space.at(i)
         viol, flags = _evaluate(case)
         nops = flags.count("op")
+        if "hist" in case:
+            h = case["hist"]
+            nmod = flags.count("mod")
+            nt = len(h["steps"]) >= 2 and nops > 0
+            acc.add(states=1, transitions=nops + nmod, traces=1, evaluations=nops, nontrivial=1 if nt else 0)
+            acc.count("history_operator_calls_on_objects_with_a_past_or_their_fresh_twins", nops)
+            acc.count("history_modifications_and_conversions", nmod)
+            if "must_raise" in flags:
+                acc.count("history_cases_reaching_a_must_raise_call")
+            for f in flags:
+                if f.startswith("skipped:"):
+                    acc.count("near_tie_or_undefined_skipped:" + f[8:])
+            for key, what in viol:
+                acc.violation(key, what, case)
+            if i < 2:
+                acc.sample(case)
+            continue
         leaves = _leaves(case["expr"])
         systems = []
         for lf in leaves:
@@ -665,7 +932,7 @@ def run(ctx):
              "its index and evaluated on the real operators; cases are distinct by construction; transitions = "
              "operator calls executed; a case is non-trivial when its quantity operands are stored in at least "
              "two different unit systems, or a plain number has to be given units, or the operation must raise, "
-             "or it is a power")
+             "or it is a power; a history case is non-trivial when at least one step precedes its last operator call")
     ctx.assume("exact SI scales of mc/ref/si.py; results compared in exact rational arithmetic with relative "
                "tolerance 1e-12 of the operand scale (sum of |terms| for sums); comparisons and the range of %% are "
                "not judged inside a relative 1e-9 band around their discontinuity (counted as skipped); %% is "
